@@ -106,8 +106,53 @@ def prepare_workdir(workdir):
     subprocess.run(["as", "--64", src, "-o", os.path.join(workdir, "BIN.o")], check=True)
 
 
+CFG_VALUES = {
+    "f": {"absent": None, "true": True, "bad": "yes"},
+    "r": {"absent": None, "A": {"min": "401000", "max": "401fff"}, "bad": {"min": "zz", "max": "401fff"}},
+    "s": {"absent": None, "S1": [".text"], "bad": ".text"},
+}
+
+
+def cfg_rule(name):
+    """'cfg:f1:f2:r:s' -> rule document whose config section realises the model step Load(f1,f2,r,s)"""
+    _, f1, f2, r, s_ = name.split(":")
+    conf = {}
+    for key, dom, val in (("mnemonics-full-match", "f", f1), ("operands-full-match", "f", f2), ("valid_addr_range", "r", r), ("sections", "s", s_)):
+        v = CFG_VALUES[dom][val]
+        if v is not None:
+            conf[key] = v
+    return _r(["mov"], conf or None)
+
+
+def config_core():
+    """the real global configuration in the vocabulary of tla/JasmConfig.tla"""
+    from jasm.global_definitions import JASMConfig, PartialMatchingConfig, DisassStyle
+    if JASMConfig._instance is None:
+        return ["unset"] * 5
+    g = JASMConfig.global_info
+
+    def flag(k):
+        return "unset" if k not in g else ("T" if g[k] is True else "F" if g[k] is False else f"?{g[k]!r}")
+    st = g.get("assembly_style", "unset")
+    st = "att" if st == DisassStyle.att else ("unset" if st == "unset" else f"?{st}")
+    if "valid_addr_range" not in g:
+        rg = "unset"
+    elif g["valid_addr_range"] is None:
+        rg = "None"
+    else:
+        v = g["valid_addr_range"]
+        rg = "A" if (v.min.hex, v.max.hex) == (0x401000, 0x401fff) else f"?{v.min.hex:x}-{v.max.hex:x}"
+    if "sections" not in g:
+        sc = "unset"
+    else:
+        sc = "empty" if g["sections"] == [] else "S1" if g["sections"] == [".text"] else f"?{g['sections']!r}"
+    return [flag(PartialMatchingConfig.MnemonicsFullMatch), flag(PartialMatchingConfig.OperandsFullMatch), st, rg, sc]
+
+
 def run_op(workdir, name):
     """Execute one complete compile-and-match operation through the public API."""
+    if name.startswith("cfg:"):
+        OPS[name] = dict(rule=cfg_rule(name), rule_path="p1.yaml", input="L1")
     from jasm.global_definitions import InputFileType, MatchConfig, MatchingReturnMode, MatchingSearchMode
     from jasm.match import MasterOfPuppets
     op = OPS[name]
@@ -222,10 +267,15 @@ def _import_pristine():
 
 def exec_history(workdir, hist):
     outcomes, snaps = [], []
+    CORES.clear()
     for name in hist:
         outcomes.append(run_op(workdir, name))
         snaps.append(snap_key(snapshot()))
+        CORES.append(config_core())
     return outcomes, snaps
+
+
+CORES = []
 
 
 def serve(workdir):
@@ -241,7 +291,7 @@ def serve(workdir):
             os.close(r)
             try:
                 outcomes, snaps = exec_history(workdir, hist)
-                os.write(w, json.dumps({"outcomes": outcomes, "snapshots": snaps}, default=str).encode())
+                os.write(w, json.dumps({"outcomes": outcomes, "snapshots": snaps, "cores": CORES}, default=str).encode())
             except BaseException as e:  # noqa
                 os.write(w, json.dumps({"error": repr(e)}).encode())
             os._exit(0)
@@ -309,7 +359,7 @@ def main():
     elif mode == "hist":
         _import_pristine()
         outcomes, snaps = exec_history(workdir, json.loads(sys.argv[3]))
-        print(json.dumps({"outcomes": outcomes, "snapshots": snaps}, default=str))
+        print(json.dumps({"outcomes": outcomes, "snapshots": snaps, "cores": CORES}, default=str))
     elif mode == "serve":
         serve(workdir)
     elif mode == "tree":
